@@ -336,3 +336,149 @@ def events_for(trace, children, key):
 
 def coq_events(ev):
     return "[" + "; ".join("(%d, %s)" % (i, a) for i, a in ev) + "]"
+
+
+# ------------------------------------------------------------------ scenarios (shared by c10 / c12 / c35)
+def resolve_keys(trace):
+    """job.pre_run_done is recorded before the checksum is known ('-'): give it the key of the next job.* line
+    of the same thread. drv.* lines keep '-' (they belong to the outermost submission)."""
+    out = list(trace)
+    for i, (pid, tid, label, k) in enumerate(out):
+        if label == "job.pre_run_done" and k == "-":
+            for pid2, tid2, label2, k2 in out[i + 1:]:
+                if pid2 == pid and tid2 == tid and label2.startswith("job.") and k2 != "-":
+                    out[i] = (pid, tid, label, k2)
+                    break
+    return out
+
+
+def outcome_literal(o):
+    if o is None:
+        return "None"
+    if o["outcome"] == "returned":
+        return "(Some (Returned (mkRes %s %s)))" % ("true" if o["errored"] else "false",
+                                                    "None" if o["out"] is None else "(Some %d)" % o["out"])
+    if "has no result" in o.get("msg", "") or "has a lockfile" in o.get("msg", ""):
+        return "(Some NoResult)"
+    return "(Some Raised)"
+
+
+def run_scenario(sc, workroot=None):
+    """Run one scenario (see harness/c10.py for the format) on the code in $VERIF_REPO. Returns a dict with the
+    translated events, the observations and the Gallina literal of the trace_case."""
+    import random
+    import shutil
+    import tempfile
+    t0 = time.time()
+    wd = tempfile.mkdtemp(prefix="verif-cp-", dir=workroot)
+    try:
+        cache = os.path.join(wd, "cache")
+        os.makedirs(cache)
+        trace = os.path.join(wd, "trace")
+        side = os.path.join(wd, "side")
+        open(side, "w").close()
+        base = dict(sc.get("task", {"task": "python"}))
+        base["side"] = side
+        if base.get("flaky"):
+            base["flaky"] = os.path.join(wd, "flaky")
+            open(base["flaky"], "w").close()
+        timeout = sc.get("timeout", 90)
+        if sc.get("pre"):
+            c = Child(99, wd, cache, [dict(base)], [], os.path.join(wd, "trace_pre"))
+            if c.finish(timeout) != 0:
+                raise RuntimeError("preparatory run failed: " + (c.output or "")[-400:])
+        children = {}
+        infos = []
+        idx = 0
+        hang = False
+        for st_no, stage in enumerate(sc["stages"]):
+            chs = []
+            gate_dir = os.path.join(wd, "gate%d" % st_no)
+            for cd in stage["children"]:
+                subs = []
+                for sd in cd.get("subs", [{}]):
+                    s = dict(base)
+                    s.update(sd)
+                    s["hook_log"] = os.path.join(wd, "hooks%d" % idx)
+                    s["_body_raises"] = bool(s.get("fail"))
+                    subs.append(s)
+                rules = list(cd.get("rules", []))
+                if stage.get("gate"):
+                    rules.append(gate_rule(gate_dir, idx, timeout=timeout))
+                chs.append((Child(idx, wd, cache, subs, rules, trace), subs, cd))
+                idx += 1
+            deadline = time.time() + timeout
+            if stage.get("gate"):
+                rng = random.Random(stage["gate"].get("seed", 0))
+                pol = stage["gate"].get("policy", "random")
+                state = {"cur": None, "left": 0}
+
+                def choose(parked, cnt, rng=rng, pol=pol, state=state):
+                    if pol == "roundrobin":
+                        state["cur"] = min(parked, key=lambda i: (cnt[i], i))
+                        return state["cur"]
+                    if pol == "bursts":
+                        if state["cur"] in parked and state["left"] > 0:
+                            state["left"] -= 1
+                            return state["cur"]
+                        state["cur"] = rng.choice(parked)
+                        state["left"] = rng.randrange(1, 12)
+                        return state["cur"]
+                    return rng.choice(parked)
+
+                Gate(gate_dir, trace, [c for c, _, _ in chs]).drive(choose, deadline)
+            for c, subs, cd in chs:
+                rc = c.finish(max(1.0, deadline - time.time()))
+                if rc is None:
+                    hang = True
+                rep = c.report()
+                hl = subs[0]["hook_log"]
+                hooks = open(hl).read().split() if os.path.exists(hl) else []
+                children[c.pid] = dict(idx=c.idx, subs=subs, inject=tuple(cd["inject"]) if cd.get("inject") else None,
+                                       crashed=(rc == 137), rc=rc)
+                infos.append(dict(idx=c.idx, rc=rc, report=rep, hooks=hooks, pid=c.pid,
+                                  tail=(c.output or "")[-400:] if rc not in (0, 137) else ""))
+        tr = resolve_keys(read_trace(trace))
+        main_keys = [k for pid, _, l, k in tr if l == "job.lock_acquired" and pid in children]
+        keys = []
+        for k in main_keys:
+            if k not in keys:
+                keys.append(k)
+        # the submitted task's own checksum: the first job that acquired a lock in any child
+        key = keys[0] if keys else "-"
+        g = observe_cache(cache, key) if key != "-" else None
+        for pid, ch in children.items():
+            if ch["crashed"]:
+                mine = [(l, k) for p, _, l, k in tr if p == pid and k in ("-", key)]
+                if mine and mine[-1][0] in OPEN_LABELS:
+                    ch["crash_file_status"] = file_status(os.path.join(cache, key, OPEN_LABELS[mine[-1][0]]))
+        ev = events_for(tr, children, key)
+        runs_all = open(side).read().split()
+        labels = {}
+        for pid, _, l, k in tr:
+            if pid in children and k in ("-", key):
+                labels.setdefault(children[pid]["idx"], []).append(l)
+        res = dict(name=sc.get("name", ""), key=key, keys=keys, events=ev, cache=g, children=infos, hang=hang,
+                   runs=len(runs_all), labels=labels, wall=round(time.time() - t0, 2),
+                   n_trace=len(tr))
+        return res
+    finally:
+        shutil.rmtree(wd, ignore_errors=True)
+
+
+def case_literal(sc, res, bv):
+    """Gallina literal of type Model.CacheProto.trace_case for a finished scenario."""
+    g = res["cache"]
+    runs = res["runs"]        # the preparatory run, if any, left one line as well (= the model's initial runs := 1)
+    gl = "(%s, %s, %s, %d, %d, %d, %d, %d)" % (
+        "true" if g["lock"] else "false", "true" if g["slock"] else "false", "true" if g["dir"] else "false",
+        g["job"], g["res"], g["err"], runs, g["infos"])
+    pl = []
+    for ch in res["children"]:
+        rep = ch["report"]
+        last = rep[-1] if (rep and ch["rc"] == 0) else None
+        pl.append("(%d, %s, %s, %d, %d)" % (
+            ch["idx"], outcome_literal(last), "true" if (last is None or last["cwd"] == "home") else "false",
+            ch["hooks"].count("pre_run_task"), ch["hooks"].count("post_run_task")))
+    return "(%s, %d, %s, %s, [%s])" % ("true" if sc.get("pre") else "false", bv, coq_events(res["events"]), gl,
+                                       "; ".join(pl))
